@@ -123,6 +123,33 @@ Theorem c16_gc_keeps_current : forall pmax b s, Inv pmax s -> is_open s = true -
   exists cur rest rest', dir s = cur :: rest /\ dir (do_gc b s) = cur :: rest'.
 Proof. exact gc_keeps_current. Qed.
 
+(** ** Several programs in one directory *)
+
+(** A logger lists by equality of the parsed program name: a name that properly
+    extends the logger's prefix (the main logger's <program> vs a secondary
+    logger's <program>-<name>; "audit" vs "audit-x") is another program. *)
+Theorem c16_extended_program_name_not_listed : forall p c r f, is_prog p (mkD (p ++ c :: r) f) = false.
+Proof. exact is_prog_extension. Qed.
+
+(** GC of the logger with prefix [p], in a directory holding files of any
+    programs, leaves every file of every other program in place ... *)
+Theorem c16_gc_other_programs_untouched : forall p b d,
+  filter (fun x => negb (is_prog p x)) (gc_dir p b d) = filter (fun x => negb (is_prog p x)) d.
+Proof. exact gc_dir_other_programs_untouched. Qed.
+
+(** ... and keeps, of its own files, exactly those [gc] selects among them:
+    [c16_gc_keeps_newest] and [c16_gc_keeps_only_within_bound] then speak about
+    the newest file and the cumulative sizes of THIS logger's files. *)
+Theorem c16_gc_own_files : forall p b d, NoDup (map f_stamp (list_files p d)) ->
+  forall f, In f (list_files p (gc_dir p b d)) <-> In f (gc b (list_files p d)).
+Proof. exact gc_dir_own_files. Qed.
+
+(** In a process with several loggers (distinct prefixes) a GC run of one
+    changes no other logger's files. *)
+Theorem c16_gc_other_loggers_unchanged : forall h p b q s ms,
+  NoDup (map fst ms) -> In (q, s) ms -> q <> p -> In (q, s) (mstep h ms (MGc p b)).
+Proof. exact mgc_other_loggers_unchanged. Qed.
+
 (** ** Non-vacuity *)
 Definition ex_entry : entry :=
   mkEntry 2 2068 12 31 23 59 59 999999 0 [x31; x32; x20] 0
@@ -159,4 +186,15 @@ Example c16_buffering_nonvacuous :
   readback_disk s = [] /\ readback s = [1; 2] /\
   readback_disk (rstep 100 s (RSetSync true)) = [1; 2] /\
   readback_disk (rrun 100 s [RSetSync true; RLog 10 10 3 90]) = [1; 2; 3].
+Proof. vm_compute. repeat split. Qed.
+
+(** main logger "p", secondary loggers "p-a" and "p-a-x" in one directory: the
+    main logger's GC with bound 0 keeps its newest file and nothing of the others
+    goes away *)
+Example c16_shared_directory_nonvacuous :
+  let p := [x70] in let pa := [x70; x2d; x61] in let pax := [x70; x2d; x61; x2d; x78] in
+  let d := [mkD pa (mkFile 5 100 [1]); mkD p (mkFile 9 100 [2]); mkD p (mkFile 7 100 [3]); mkD pax (mkFile 1 100 [4])] in
+  map f_stamp (list_files p d) = [9; 7] /\ map f_stamp (list_files pa d) = [5] /\
+  map (fun x => f_stamp (d_file x)) (gc_dir p 0 d) = [5; 9; 1] /\
+  map (fun x => f_stamp (d_file x)) (gc_dir pa 0 d) = [5; 9; 7; 1].
 Proof. vm_compute. repeat split. Qed.
